@@ -26,7 +26,7 @@
    tests `!= PLACEHOLDER_STR` when it reads a cell.  A cell is modelled as an [option label];
    [cell_of] performs the string test at the moment a label is stored, which is equivalent.
 
-   add_mul_wallace models the REPAIRED code (fixes/D27.patch): the last step reads row 0 and row 1 of
+   add_mul_wallace models the REPAIRED code (fixes/D29.patch): the last step reads row 0 and row 1 of
    the reduced matrix as two numbers; the pinned code compacted them by SKIPPING placeholders, which
    moves every gate behind an empty cell one column down (wrong products for n = 2, m >= 11); the
    repaired code fills such a cell with a constant-false gate.
@@ -231,7 +231,7 @@ Fixpoint wallace_loop (fuel : nat) (rows : list (list cell)) : prog (list (list 
        | S f => bdo r <- wallace_round rows; wallace_loop f r
        end.
 
-(* labels_a / labels_b / shift of the last loop (repaired, fixes/D27.patch): row 0 is read from column 0
+(* labels_a / labels_b / shift of the last loop (repaired, fixes/D29.patch): row 0 is read from column 0
    to its last gate, row 1 from its first to its last gate; an empty cell in between stands for a zero bit
    and is filled with a constant-false gate, created (once) only if there is such a cell.  [all_none r]:
    no gate from here on, i.e. the current column is beyond `last` *)
